@@ -68,7 +68,10 @@ def src(e):
     if t == "list": return "[" + ", ".join(src(x) for x in e[1]) + "]"
     if t == "tuple": return "(" + ", ".join(src(x) for x in e[1]) + ("," if len(e[1]) == 1 else "") + ")"
     if t == "map": return "{" + ", ".join(src(k) + ": " + src(v) for k, v in e[1]) + "}"
-    if t == "neg": return "(-" + src(e[1]) + ")"
+    if t == "neg":
+        # unary minus binds tighter than subscripts, calls and filters: `-x|abs` is `(-x)|abs`
+        inner = src(e[1])
+        return "(-" + (inner if e[1][0] in ATOMS + ("var", "list", "tuple", "map") or (inner.startswith("(") and inner.endswith(")") and e[1][0] not in ("filter", "item", "slice")) else "(" + inner + ")") + ")"
     if t == "not": return "(not " + src(e[1]) + ")"
     if t == "bin": return "(" + src(e[2]) + " " + e[1] + " " + src(e[3]) + ")"
     if t == "cmp":
@@ -159,6 +162,61 @@ def subexprs(e):
         yield from subexprs(k)
 
 
+# ---- printer self-test: the parser's AST of the printed source must be the generated AST ----
+P_BIN = {"Add": "+", "Sub": "-", "Mul": "*", "Div": "/", "FloorDiv": "//", "Rem": "%", "Pow": "**", "Concat": "~"}
+P_CMP = {"Eq": "==", "Ne": "!=", "Lt": "<", "Lte": "<=", "Gt": ">", "Gte": ">=", "In": "in", "NotIn": "notin"}
+
+
+def from_parsed(j):
+    k, f = j["expr"], j["inner"][0]
+    if k == "Const":
+        v = f["value"]
+        if v is None: return ("none",)
+        if isinstance(v, bool): return ("bool", v)
+        if isinstance(v, int): return ("int", v)
+        if isinstance(v, float): return ("float", f2b(v))
+        if isinstance(v, str): return ("str", v)
+        raise ValueError(v)
+    if k == "Var": return ("var", f["id"])
+    if k == "UnaryOp": return ("not" if f["op"] == "Not" else "neg", from_parsed(f["expr"]))
+    if k == "BinOp":
+        a, b, op = from_parsed(f["left"]), from_parsed(f["right"]), f["op"]
+        if op in P_BIN: return ("bin", P_BIN[op], a, b)
+        if op in P_CMP: return ("cmp", a, [(P_CMP[op], b)])
+        return ("and" if op == "ScAnd" else "or", a, b)
+    if k == "Compare": return ("cmp", from_parsed(f["expr"]), [(P_CMP[o["op"]], from_parsed(o["expr"])) for o in f["ops"]])
+    if k == "IfExpr": return ("ifexpr", from_parsed(f["test_expr"]), from_parsed(f["true_expr"]), from_parsed(f["false_expr"]) if f["false_expr"] else None)
+    if k in ("Filter", "Test", "Call"):
+        pos = [from_parsed(a["Pos"]) for a in f["args"] if "Pos" in a]
+        kw = [(a["Kwarg"][0], from_parsed(a["Kwarg"][1])) for a in f["args"] if "Kwarg" in a]
+        if k == "Filter": return ("filter", f["name"], from_parsed(f["expr"]), pos, kw)
+        if k == "Test": return ("test", f["name"], from_parsed(f["expr"]), pos, False)
+        return ("call", from_parsed(f["expr"])[1], pos, kw)
+    if k == "GetItem": return ("item", from_parsed(f["expr"]), from_parsed(f["subscript_expr"]))
+    if k == "Slice": return ("slice", from_parsed(f["expr"])) + tuple(from_parsed(f[x]) if f[x] else None for x in ("start", "stop", "step"))
+    if k in ("List", "Tuple"): return (k.lower(), [from_parsed(x) for x in f["items"]])
+    if k == "Map": return ("map", [(from_parsed(a), from_parsed(b)) for a, b in zip(f["keys"], f["values"])])
+    raise ValueError(k)
+
+
+def canon(e):
+    """the generated AST in the parser's normal form: `a not in b` alone is not(a in b), `is not` is not(is)"""
+    ks, rb = kids(e)
+    e = rb([canon(k) for k in ks]) if ks else e
+    if e[0] == "cmp" and len(e[2]) == 1 and e[2][0][0] == "notin":
+        return ("not", ("cmp", e[1], [("in", e[2][0][1])]))
+    if e[0] == "test" and e[4]:
+        return ("not", ("test", e[1], e[2], e[3], False))
+    return e
+
+
+def printer_ok(e, item):
+    try:
+        return from_parsed(json.loads(item["ast_json"])) == canon(e)
+    except Exception:
+        return False
+
+
 def tv_atom(e):
     t = e[0]
     if t == "int": return {"t": "int", "v": str(e[1])}
@@ -175,7 +233,7 @@ def tv_literal(e):
     if t in ATOMS: return tv_atom(e)
     if t == "neg":
         a = e[1]
-        if a[0] == "int" and a[1] != 2 ** 127:      # -(2^127): ops::neg keeps the u128 (C08's pinned finding) - not hoisted as a unit
+        if a[0] == "int" and a[1] < 2 ** 127:       # beyond: negation fails (no literal); -(2^127): ops::neg keeps the u128 (C08's pinned finding)
             return {"t": "int", "v": str(-a[1])}
         if a[0] == "float": return {"t": "float", "bits": str(a[1] ^ (1 << 63))}
         return None
@@ -318,7 +376,10 @@ class GenA:
                 n = 2 + r.below(2)
                 return ("cmp", g(d - 1, kind), [(r.choice(["==", "!=", "<", "<=", ">", ">=", "<", "<="]), g(d - 1, kind)) for _ in range(n)])
             if c == 5: return ("cmp", g(d - 1, "any"), [(r.choice(["in", "notin"]), g(d - 1, r.choice(["seq", "seq", "str", "map", "any"])))])
-            if c == 6: return ("cmp", g(d - 1, "num"), [("<", g(d - 1, "num")), (r.choice(["in", "notin"]), g(d - 1, "seq"))])
+            if c == 6:
+                if r.chance(1, 3):      # containment at the end of a chain, string in string
+                    return ("cmp", self.atom("str"), [(r.choice(["<", "<=", "!=", ">"]), self.atom("str")), (r.choice(["in", "notin"]), self.atom("str"))])
+                return ("cmp", g(d - 1, "num"), [("<", g(d - 1, "num")), (r.choice(["in", "notin"]), g(d - 1, "seq"))])
             if c == 7: return ("not", g(d - 1, "any"))
             if c == 8: return ("test", r.choice(["odd", "even", "defined", "none", "string", "number", "sequence", "true", "false"]), g(d - 1, "any"), [], r.chance(1, 4))
             if c == 9: return ("test", r.choice(["eq", "ne", "lt", "ge", "divisibleby", "in"]), g(d - 1, "any"), [g(d - 1, "any")], False)
@@ -350,14 +411,18 @@ class GenA:
     def kwargs(self, spec, atleast=0):
         r = self.r
         out = []
+
+        def val(kind):
+            if kind == "small": return self.small()             # widths / indents stay small: huge ones are C01's allocation findings
+            if kind == "bool": return ("bool", r.chance(1, 2))
+            if kind == "byval": return ("str", r.choice(["value", "key"]))
+            return self.atom() if r.chance(4, 5) else ("neg", self.atom("num"))
         for k, kind in spec:
             if r.chance(1, 2) or len(out) < atleast:
-                if kind == "small": v = self.small()
-                elif kind == "bool": v = ("bool", r.chance(1, 2))
-                elif kind == "byval": v = ("str", r.choice(["value", "key"]))
-                else:
-                    v = self.atom() if r.chance(4, 5) else ("neg", self.atom("num"))
-                out.append((k, v))
+                out.append((k, val(kind)))
+        if out and r.chance(1, 8):      # a keyword given twice
+            k, kind = r.choice([sp for sp in spec if sp[0] in [o[0] for o in out]])
+            out.append((k, val(kind)))
         return out
 
 
@@ -523,8 +588,32 @@ def fold_part(out):
 
 
 def model_norm(out):
-    """the model tells the silent undefined (6) from the ordinary one (0); the harness cannot"""
-    return [0 if x == 6 else x for x in out]
+    """the model tells the silent undefined (tag 6) from the ordinary one (tag 0); the harness cannot.
+    Rewrites value tags only (never string lengths or characters)."""
+    out = list(out)
+
+    def val(i):
+        t = out[i]
+        if t == 6:
+            out[i] = 0
+            return i + 1
+        if t in (2, 3): return i + 2
+        if t == 4: return i + 2 + out[i + 1]
+        if t == 5:
+            j = i + 2
+            for _ in range(out[i + 1]):
+                j = val(j)
+            return j
+        return i + 1
+    try:
+        i = 1
+        if out[0] == 1:
+            i = val(1)
+        if out[i] == 0:
+            val(i + 1)
+    except Exception:
+        pass
+    return out
 
 
 # ---------------------------------------------------------------------------------------------
@@ -543,6 +632,17 @@ def run_c04(reqs, release=False, workers=12):
     for j, o in enumerate(outs):
         for i, r in enumerate(o):
             res[j + i * n] = r
+    return res
+
+
+def run_c04_robust(reqs, release=False):
+    """like run_c04; a request on which the process died or hung is re-run item by item, so that
+    only the items that really kill the process are marked {"panic": "process died"}"""
+    res = run_c04(reqs, release)
+    for i, r in enumerate(res):
+        if not (isinstance(r, dict) and isinstance(r.get("items"), list) and len(r["items"]) == len(reqs[i]["items"])):
+            single = run_c04([{"undefined": reqs[i].get("undefined", "lenient"), "items": [it]} for it in reqs[i]["items"]], release)
+            res[i] = {"items": [(s.get("items") or [{"panic": "process died"}])[0] if isinstance(s, dict) and s.get("items") else {"panic": "process died"} for s in single], "rerun": True}
     return res
 
 
@@ -587,6 +687,7 @@ def request_for(e, mode, vs=None):
         if uses_macro(e2):
             it["prelude"] = MACRO_PRELUDE
         items.append(it)
+    items[0]["ast"] = True
     return {"undefined": mode, "items": items}
 
 
@@ -597,8 +698,7 @@ def disagreements(vs, resp):
         return [("harness", 0, json.dumps(resp)[:200])]
     bad = []
     o0 = obs(items[0])
-    if o0[0] == "crash":
-        bad.append(("crash", 0, o0[1]))
+    # (a panic inside the engine that every variant shows alike is C01's business, not a difference)
     for i in range(1, len(vs)):
         oi = obs(items[i])
         if oi != o0:
@@ -707,7 +807,7 @@ def main():
         if "ast" in rp:
             exprs.append((eval(rp["ast"]), rp.get("undefined", "lenient")))
     else:
-        n = 12000 if chk.thorough else 700
+        n = 80000 if chk.thorough else 4000
         g = GenA(chk.rng)
         seeds = [("and", ("int", 0), ("int", 1)), ("and", ("int", 1), ("str", "")), ("or", ("int", 0), ("list", [])),
                  ("not", ("list", [])), ("cmp", ("int", 1), [("<", ("int", 2)), ("<", ("int", 3))]),
@@ -719,6 +819,8 @@ def main():
                  ("cmp", ("str", "a"), [("in", ("str", "abc"))]), ("bin", "~", ("float", f2b(1.0)), ("none",)),
                  ("and", ("float", f2b(0.0)), ("int", 1)), ("and", ("neg", ("float", f2b(0.0))), ("str", "x")),
                  ("and", ("none",), ("bool", True)), ("and", ("tuple", []), ("int", 1)), ("and", ("map", []), ("int", 1))]
+        if os.environ.get("C04_NO_SEEDS"):          # (for experiments: does random generation alone find a defect?)
+            seeds = []
         for s in seeds:
             exprs.append((s, "lenient"))
         tries = 0
@@ -729,44 +831,56 @@ def main():
             if k == 0 or k > 6 or count_nodes(e) < 2:
                 continue
             exprs.append((e, chk.rng.choice(MODES)))
-    vss = [variants_of(e) for e, _ in exprs]
-    reqs = [request_for(e, md, vs) for (e, md), vs in zip(exprs, vss)]
-    nvariants = sum(len(v) for v in vss)
+    nvariants = 0
     nontriv = set()
     failing_consts = []
     bad_a = []
-    for rel in (False, True):
-        resp = run_c04(reqs, release=rel)
-        for i, ((e, md), vs, r) in enumerate(zip(exprs, vss, resp)):
-            b = disagreements(vs, r)
-            if b:
-                bad_a.append((i, rel, b))
-            if rel:
-                continue
-            items = (r or {}).get("items") or [{}]
-            it0 = items[0]
-            folded = "const" in it0
-            rr = it0.get("render") or {}
-            hist["literal_form_folded" if folded else "literal_form_runtime"] += 1
-            hist["render_ok" if "ok" in rr else "render_err_" + ERR_NAMES.get(rr.get("err"), str(rr.get("err")))] += 1
-            hist["literals_%d" % count_atoms(e)] += 1
-            hist["mode_" + md] += 1
-            kinds_of(e, kinds)
-            if "err" in rr and count_atoms(e) == sum(1 for _ in subexprs(e) if _[0] in ATOMS) and all(x[0] != "var" for x in subexprs(e)) and len(failing_consts) < (400 if chk.thorough else 60):
-                if all(x[0] not in ("filter", "call", "test", "item", "slice") for x in subexprs(e)):
-                    failing_consts.append(e)
-            if count_atoms(e) >= 2 and len(vs) >= 4 and it0.get("load") == "ok":
-                nontriv.add(src(e) + "|" + md)
+    printer_bad = []
+    BATCH = 4000
+    for b0 in range(0, len(exprs), BATCH):          # batches keep the memory of the thorough tier flat
+        bex = exprs[b0:b0 + BATCH]
+        vss = [variants_of(e) for e, _ in bex]
+        reqs = [request_for(e, md, vs) for (e, md), vs in zip(bex, vss)]
+        nvariants += sum(len(v) for v in vss)
+        for rel in (False, True):
+            resp = run_c04_robust(reqs, release=rel)
+            for j, ((e, md), vs, r) in enumerate(zip(bex, vss, resp)):
+                b = disagreements(vs, r)
+                if b:
+                    if len(bad_a) < 200:
+                        bad_a.append((b0 + j, rel, b, vs, reqs[j]))
+                    else:
+                        bad_a.append((b0 + j, rel, b, None, None))
+                if rel:
+                    continue
+                items = (r or {}).get("items") or [{}]
+                it0 = items[0]
+                if "load" not in it0:
+                    hist["literal_form_panics_like_all_variants"] += 1
+                    continue
+                if not printer_ok(e, it0):
+                    printer_bad.append(src(e))
+                folded = "const" in it0
+                rr = it0.get("render") or {}
+                hist["literal_form_folded" if folded else "literal_form_runtime"] += 1
+                hist["render_ok" if "ok" in rr else "render_err_" + ERR_NAMES.get(rr.get("err"), str(rr.get("err")))] += 1
+                hist["literals_%d" % count_atoms(e)] += 1
+                hist["mode_" + md] += 1
+                kinds_of(e, kinds)
+                if "err" in rr and all(x[0] != "var" for x in subexprs(e)) and len(failing_consts) < (400 if chk.thorough else 60):
+                    if all(x[0] not in ("filter", "call", "test", "item", "slice") for x in subexprs(e)):
+                        failing_consts.append(e)
+                if count_atoms(e) >= 2 and len(vs) >= 4 and it0.get("load") == "ok":
+                    nontriv.add(src(e) + "|" + md)
     seen = set()
-    for i, rel, b in bad_a:
-        if len(seen) >= 4:
+    for i, rel, b, vs_i, req_i in bad_a:
+        if len(seen) >= 4 or vs_i is None:
             break
         e, md = exprs[i]
         sh = shrink(e, md, rel)
         if sh is None:
-            small, vs, resp = e, vss[i], None
-            what_i = b[0]
-            resp = run_c04([reqs[i]], rel)[0]
+            small, vs = e, vs_i
+            resp = run_c04_robust([req_i], rel)[0]
             b2 = b
         else:
             small, (vs, resp, b2) = sh
@@ -836,7 +950,7 @@ def main():
             lexprs.append((eval(rp["lang_ast"]), rp.get("undefined", "lenient")))
     else:
         gl = GenL(chk.rng)
-        nl = 20000 if chk.thorough else 1500
+        nl = 150000 if chk.thorough else 8000
         for s in [("and", ("int", 0), ("int", 1)), ("and", ("int", 1), ("str", "")), ("or", ("str", ""), ("list", [])), ("not", ("list", [])),
                   ("cmp", ("int", 1), [("notin", ("list", [("int", 1)]))]), ("list", [("neg", ("int", 1))]), ("bin", "//", ("int", 1), ("int", 0)),
                   ("cmp", ("int", 3), [(">", ("int", 2)), (">", ("int", 1)), (">", ("bin", "//", ("int", 1), ("int", 0)))]),
@@ -855,7 +969,7 @@ def main():
         c = {n: tv_py(v) for n, v in LANG_CTX.items()}
         c2 = dict(c)
         c2.update(hctx)
-        creqs.append({"undefined": md, "items": [{"expr": src(e), "ctx": c}, {"expr": src(full), "ctx": c2}]})
+        creqs.append({"undefined": md, "items": [{"expr": src(e), "ctx": c, "ast": True}, {"expr": src(full), "ctx": c2, "ast": True}]})
         N = langenc.Names()
         ctxl = []
         for n in sorted(LANG_CTX):
@@ -870,7 +984,10 @@ def main():
         ccases_h.append([langenc.MODES[md], len(pyc)] + ctxl2 + langenc.expr(to_lang(full), N2))
     model = run_model("C04", "c04", cases) if cases else []
     model_h = run_model("C04", "c04", ccases_h) if cases else []
+    msub = run_model("C04", "c04-sub", cases) if cases else []
+    msub_h = run_model("C04", "c04-sub", ccases_h) if cases else []
     bad_c = []
+    bad_sub = []
     for rel in (False, True):
         cresp = run_c04(creqs, release=rel)
         for i, ((e, md), r) in enumerate(zip(lexprs, cresp)):
@@ -878,6 +995,13 @@ def main():
             if len(items) != 2 or "load" not in items[0]:
                 bad_c.append((i, rel, "harness", None, None))
                 continue
+            if not rel and not (printer_ok(e, items[0]) and printer_ok(hoist_atoms(e, set(range(count_atoms(e))))[0], items[1])):
+                printer_bad.append(src(e))
+            for it, ms in ((items[0], msub[i]), (items[1], msub_h[i])):
+                # the folding decisions below the top node: instruction counts predicted by fold_sub
+                ops = it.get("ops") or []
+                if ms[:1] != [-1] and [ops.count("LoadConst"), ops.count("Lookup")] != ms:
+                    bad_sub.append((i, rel, src(e), ops, ms))
             for which, it, m in ((0, items[0], model[i]), (1, items[1], model_h[i])):
                 folded = it.get("ops") == ["LoadConst", "Emit"]
                 exp = ([1] + sv_enc(it["const"])) if folded and "const" in it else [0]
@@ -941,6 +1065,10 @@ def main():
         rep = {"template": "{{ " + src(cur) + " }}", "context": LANG_CTX, "undefined": md, "profile": "release" if rel else "debug",
                "engine": {"folded_then_value": ex, "ops": (it or {}).get("ops")}, "model_fixed_folder": mm, "model_folder_as_found": mo,
                "lang_ast": repr(cur), "form": which}
+        if which == "hoisted":
+            full, hctx = hoist_atoms(e, set(range(count_atoms(e))))
+            rep["template"] = "{{ " + src(full) + " }}"
+            rep["context"] = dict(LANG_CTX, **{n: py_tv(v) for n, v in hctx.items()})
         if mo is not None and fold_part(ex) == fold_part(model_norm(mo)) and fold_part(ex) != fold_part(model_norm(mm)):
             old_explains += 1
             rep["note"] = "the engine behaves like the model of ast.rs as found (as_const_old), not like the repaired folder"
@@ -952,6 +1080,11 @@ def main():
             rep["theorem_or_correspondence"] = "C04/Model.v::as_const vs compiler/ast.rs::as_const / Lang/Interp.v vs vm"
             chk.violation("model and engine disagree on a core-fragment expression", rep, True)
 
+    if bad_sub and not chk.violations:
+        i, rel, s_, ops, ms = min(bad_sub, key=lambda b: len(b[2]))
+        chk.violation("the engine folds sub-expressions differently from the model (fold_sub)",
+                      {"theorem_or_correspondence": "C04/Model.v::fold_sub vs codegen.rs::compile_expr (recursive as_const)", "template": "{{ " + s_ + " }}",
+                       "engine_ops": ops, "model_loadconst_lookup": ms, "profile": "release" if rel else "debug", "lang_ast": repr(lexprs[i][0])}, True)
     chk.cov["evaluations"] = 2 * (nvariants + 2 * len(lexprs)) + nb
     chk.cov["distinct_nontrivial"] = len(nontriv)
     chk.cov["rule"] = ("part A: generated expressions x EVERY subset of their literal positions hoisted into typed context variables (+ whole literal units), each variant loaded, rendered as `{{ E }}` and `{{ [E] }}` and evaluated through compile_expression, debug and release; "
@@ -962,8 +1095,12 @@ def main():
     chk.cov["distribution"] = {"outcomes": dict(hist), "constructs": dict(kinds)}
     chk.cov["partA"] = {"expressions": len(exprs), "variants": nvariants, "disagreeing_expressions": len(bad_a)}
     chk.cov["partB"] = {"failing_constant_expressions": len(fails), "template_checks": nb}
-    chk.cov["partC"] = {"expressions": len(lexprs), "engine_vs_model_disagreements": len(bad_c), "explained_by_folder_as_found": old_explains}
+    chk.cov["partC"] = {"expressions": len(lexprs), "engine_vs_model_disagreements": len(bad_c), "subexpression_folding_disagreements": len(bad_sub), "explained_by_folder_as_found": old_explains}
     chk.cov["kernel_crosscheck"] = {"cases": len(small), "agree": kern_ok}
+    chk.cov["printer_selftest"] = {"expressions": len(exprs) + 2 * len(lexprs), "parser_ast_differs": len(printer_bad)}
+    if printer_bad and not chk.violations:
+        chk.violation("the parser reads a generated source differently from the generated AST (generator/printer defect)",
+                      {"theorem_or_correspondence": "tools/props/C04.py::src vs compiler/parser.rs", "sources": printer_bad[:5]}, True)
     if not chk.violations and not chk.replay:
         total = max(1, hist["literal_form_folded"] + hist["literal_form_runtime"])
         if hist["literal_form_folded"] < total // 10 or hist["render_ok"] < total // 4:
